@@ -29,6 +29,11 @@ pub fn check(t: &Trace<'_>, out: &mut CaseOut) -> bool {
             let replaced = t.epoch_at[ev] > msg.epoch;
             let want: u8 = if replaced {
                 4
+            } else if msg.dropped_ev.is_some_and(|x| x < ev) {
+                // the client dropped the exchange after a successful PUBREC (no room for the
+                // PUBREL): neither PUBCOMP nor a failing PUBREC has been received
+                out.count("probes_of_exchanges_the_client_dropped", 1);
+                1
             } else if msg.ended_ev.is_some_and(|x| x < ev) {
                 2
             } else {
